@@ -265,39 +265,51 @@ Definition add_root (s : st) : st :=
 
 Definition pop (s : st) (h : handle) : st := set_ready s (remove_first h (ready s)).
 
-Record walk_hyps (R : st -> st -> Prop) (enter_ok : st -> sid -> Prop)
-                 (setdl_ok : st -> sid -> option Z -> Prop) (tick_ok : st -> Z -> Prop) : Prop := mk_walk_hyps {
+(* side conditions under which the individual hypotheses are required (True everywhere = no side condition) *)
+Record oks : Type := mk_oks {
+  ok_enter : st -> sid -> Prop;              (* AEnter: scope_enter of a scope named by the program *)
+  ok_setdl : st -> sid -> option Z -> Prop;  (* ASetDeadline *)
+  ok_tick : st -> Z -> Prop;                 (* ATick *)
+  ok_new : option Z -> Prop;                 (* new_scope d _ followed by scope_enter (AFailAt; internally d = None) *)
+  ok_genter : st -> gid -> Prop;             (* AGroupEnter: scope_enter of the group's scope *)
+  ok_henter : st -> tid -> Prop;             (* first step of a child: scope_enter of its handle scope *)
+  ok_trun : st -> sid -> tmid -> Prop        (* ARun (HTimeout c tm) *)
+}.
+
+Definition ok_always (e : st -> sid -> Prop) (d : st -> sid -> option Z -> Prop) (k : st -> Z -> Prop) : oks :=
+  mk_oks e d k (fun _ => True) (fun _ _ => True) (fun _ _ => True) (fun _ _ _ => True).
+
+Record walk_hyps (R : st -> st -> Prop) (K : oks) : Prop := mk_walk_hyps {
   wh_refl : forall s, R s s;
   wh_trans : forall a b c, R a b -> R b c -> R a c;
   wh_frame : forall a b, frame a b -> R a b;
+  wh_ok_none : ok_new K None;
   wh_new_scope : forall s d sh, R s (fst (new_scope s d sh));
-  wh_new_enter : forall s d sh t, R s (fst (scope_enter (fst (new_scope s d sh)) (nscope s) t));
-  wh_enter : forall s c t, enter_ok s c -> R s (fst (scope_enter s c t));
-  wh_enter_g : forall s g t, R s (fst (scope_enter s (g_scope (groups s g)) t));
-  wh_enter_h : forall s t, R s (fst (scope_enter s (k_hscope (tasks s t)) t));
+  wh_new_enter : forall s d sh t, ok_new K d -> R s (fst (scope_enter (fst (new_scope s d sh)) (nscope s) t));
+  wh_enter : forall s c t, ok_enter K s c -> R s (fst (scope_enter s c t));
+  wh_enter_g : forall s g t, ok_genter K s g -> R s (fst (scope_enter s (g_scope (groups s g)) t));
+  wh_enter_h : forall s t, ok_henter K s t -> R s (fst (scope_enter s (k_hscope (tasks s t)) t));
   wh_exit : forall s c t exc, R s (fst (scope_exit s c t exc));
   wh_cancel : forall s c, R s (scope_cancel s c false);
-  wh_setdl : forall s c d, setdl_ok s c d -> R s (set_deadline_body s c d);
+  wh_setdl : forall s c d, ok_setdl K s c d -> R s (set_deadline_body s c d);
   wh_add_group : forall s c, c < nscope s -> R s (add_group s c);
   wh_spawn : forall s g sf, R s (fst (spawn_task s g sf));
   wh_sleep : forall s t f w, R s (set_ctl (suspend_on (fst (call_at s w (TSleep f))) t f) t (CSleep f (ntimer s)));
   wh_sleep0 : forall s t f, R s (set_ctl s t (CSleep f 0));
   wh_sleep_wake : forall s t f tm, k_ctl (tasks s t) = CSleep f tm -> R s (timer_cancel s tm);
   wh_pop_sleepdone : forall s f tm, R s (pop s (HSleepDone f tm));
-  wh_timeout_run : forall s c tm, In (HTimeout c tm) (ready s) ->
+  wh_timeout_run : forall s c tm, ok_trun K s c tm -> In (HTimeout c tm) (ready s) ->
                                   R s (scope_timeout (set_running (pop s (HTimeout c tm)) None) c);
   wh_add_root : forall s, R s (add_root s);
-  wh_tick : forall s dt, tick_ok s dt -> R s (tick s dt)
+  wh_tick : forall s dt, ok_tick K s dt -> R s (tick s dt)
 }.
 
 Section Walk.
-  Context {R : st -> st -> Prop} {enter_ok : st -> sid -> Prop}
-          {setdl_ok : st -> sid -> option Z -> Prop} {tick_ok : st -> Z -> Prop}
-          (W : walk_hyps R enter_ok setdl_ok tick_ok).
+  Context {R : st -> st -> Prop} {K : oks} (W : walk_hyps R K).
 
-  Let Rrefl := wh_refl _ _ _ _ W.
-  Let Rtrans := wh_trans _ _ _ _ W.
-  Let Rframe := wh_frame _ _ _ _ W.
+  Let Rrefl := wh_refl _ _ W.
+  Let Rtrans := wh_trans _ _ W.
+  Let Rframe := wh_frame _ _ W.
 
   Lemma Rf a b c : R a b -> frame b c -> R a c.
   Proof. intros H F. eapply Rtrans; [exact H|apply Rframe, F]. Qed.
@@ -324,26 +336,29 @@ Section Walk.
   Proof. intros Hg H. eapply Rf; [exact H|now apply frame_upd_group]. Qed.
 
   Lemma Rf_cancel a b c : R a b -> R a (scope_cancel b c false).
-  Proof. intros H. eapply Rtrans; [exact H|apply (wh_cancel _ _ _ _ W)]. Qed.
+  Proof. intros H. eapply Rtrans; [exact H|apply (wh_cancel _ _ W)]. Qed.
 
   Lemma Rp_exit a b c t exc s1 x : scope_exit b c t exc = (s1, x) -> R a b -> R a s1.
   Proof.
     intros E H. eapply Rtrans; [exact H|]. replace s1 with (fst (scope_exit b c t exc)) by now rewrite E.
-    apply (wh_exit _ _ _ _ W).
+    apply (wh_exit _ _ W).
   Qed.
 
   Lemma Rp_new_scope a b d sh s1 c : new_scope b d sh = (s1, c) -> R a b -> R a s1.
   Proof.
     intros E H. eapply Rtrans; [exact H|]. replace s1 with (fst (new_scope b d sh)) by now rewrite E.
-    apply (wh_new_scope _ _ _ _ W).
+    apply (wh_new_scope _ _ W).
   Qed.
 
   (* new_scope immediately followed by scope_enter of the fresh scope *)
-  Lemma Rp_new_enter a b d sh t s1 c : new_scope b d sh = (s1, c) -> R a b -> R a (fst (scope_enter s1 c t)).
+  Lemma Rp_new_enter a b d sh t s1 c :
+    ok_new K d -> new_scope b d sh = (s1, c) -> R a b -> R a (fst (scope_enter s1 c t)).
   Proof.
-    intros E H. eapply Rtrans; [exact H|]. injection E as <- <-.
-    apply (wh_new_enter _ _ _ _ W b d sh t).
+    intros Hd E H. eapply Rtrans; [exact H|]. injection E as <- <-.
+    apply (wh_new_enter _ _ W b d sh t Hd).
   Qed.
+
+  Let OkN := wh_ok_none _ _ W.
 
   Lemma Rp_new_fut a b s1 f : new_fut b = (s1, f) -> R a b -> R a s1.
   Proof.
@@ -353,7 +368,7 @@ Section Walk.
   Lemma Rp_spawn a b g sf s1 c : spawn_task b g sf = (s1, c) -> R a b -> R a s1.
   Proof.
     intros E H. eapply Rtrans; [exact H|]. replace s1 with (fst (spawn_task b g sf)) by now rewrite E.
-    apply (wh_spawn _ _ _ _ W).
+    apply (wh_spawn _ _ W).
   Qed.
 
   Lemma Rp_event_wait a b t e s1 f : event_wait b t e = (s1, f) -> R a b -> R a s1.
@@ -421,8 +436,10 @@ Section Walk.
   (* ---------------- puppet ops ---------------- *)
   Lemma R_puppet_op s0 t o :
     match o with
-    | AEnter _ c => enter_ok (begin_act s0 t) c
-    | ASetDeadline _ c d => setdl_ok (begin_act s0 t) c d
+    | AEnter _ c => ok_enter K (begin_act s0 t) c
+    | ASetDeadline _ c d => ok_setdl K (begin_act s0 t) c d
+    | AFailAt _ d _ => ok_new K d
+    | AGroupEnter _ g => ok_genter K (upd_group (begin_act s0 t) g (gr_entered true)) g
     | _ => True
     end -> R s0 (fst (puppet_op s0 t o)).
   Proof.
@@ -430,7 +447,7 @@ Section Walk.
     unfold puppet_op. set (s := begin_act s0 t) in *. destruct o; try (cbn [fst]; apply Rrefl).
     - (* ANewScope *) dpair s1 c E. apply Rf_ret. eapply Rp_new_scope; eauto.
     - (* AEnter *) dpair s1 e E. apply Rf_ret. eapply Rtrans; [exact B|].
-      replace s1 with (fst (scope_enter s c t)) by now rewrite E. now apply (wh_enter _ _ _ _ W).
+      replace s1 with (fst (scope_enter s c t)) by now rewrite E. now apply (wh_enter _ _ W).
     - (* AExit *) dpair s1 x E. pose proof (Rp_exit _ _ _ _ _ _ _ E B) as H1.
       destruct x; try (now apply Rf_ret).
       assert (H2 : R s0 (upd_task s1 t (tk_held None))) by (apply Rf_upd_task; [tkok|exact H1]).
@@ -441,17 +458,17 @@ Section Walk.
       { eapply Rf; [exact B|]. apply frame_upd_scope. intros k; constructor; reflexivity. }
       destruct b; [exact H1|]. eapply Rf; [exact H1|apply frame_restart].
     - (* ASetDeadline *) change (R s0 (fst (ret_to_puppet (set_deadline_body s c d) t (RRet 0)))).
-      apply Rf_ret. eapply Rtrans; [exact B|]. now apply (wh_setdl _ _ _ _ W).
+      apply Rf_ret. eapply Rtrans; [exact B|]. now apply (wh_setdl _ _ W).
     - (* AGroupNew *) dpair s1 c E. apply Rf_ret.
       change (R s0 (add_group s1 c)). eapply Rtrans; [eapply Rp_new_scope; eauto|].
-      apply (wh_add_group _ _ _ _ W). injection E as <- <-. cbn. lia.
+      apply (wh_add_group _ _ W). injection E as <- <-. cbn. lia.
     - (* AGroupEnter *) destruct (g_entered (groups s g)); [now apply Rf_ret|].
       dpair s2 e E. apply Rf_ret.
       assert (H1 : R s0 (upd_group s g (gr_entered true))) by (apply Rf_upd_group; auto).
       eapply Rtrans; [exact H1|].
       replace s2 with (fst (scope_enter (upd_group s g (gr_entered true))
                                         (g_scope (groups (upd_group s g (gr_entered true)) g)) t)) by now rewrite E.
-      apply (wh_enter_g _ _ _ _ W).
+      apply (wh_enter_g _ _ W). exact OK.
     - (* AGroupExit *)
       assert (H1 : R s0 (match k_held (tasks s t) with
                          | Some e => if is_cancel e then scope_cancel s (g_scope (groups s g)) false
@@ -478,8 +495,8 @@ Section Walk.
       eapply Rp_new_enter; eauto.
     - (* ASleep *) dpair s1 f E. pose proof (Rp_new_fut _ _ _ _ E B) as H1. destruct d as [dt|].
       + dpair s2 tm E2. apply Rf_blocked. injection E2 as <- <-. eapply Rtrans; [exact H1|].
-        apply (wh_sleep _ _ _ _ W).
-      + apply Rf_blocked. eapply Rtrans; [apply Rf_suspend; exact H1|]. apply (wh_sleep0 _ _ _ _ W).
+        apply (wh_sleep _ _ W).
+      + apply Rf_blocked. eapply Rtrans; [apply Rf_suspend; exact H1|]. apply (wh_sleep0 _ _ W).
     - (* AHold *) apply Rf_ret, Rf_upd_task; [tkok|exact B].
     - (* ADrop *) apply Rf_ret, Rf_upd_task; [tkok|exact B].
     - (* AWrap *) apply Rf_ret, Rf_upd_task; [tkok|exact B].
@@ -506,9 +523,11 @@ Section Walk.
   Qed.
 
   (* ---------------- resumption ---------------- *)
-  Lemma R_resume s0 t fo : R s0 (fst (resume s0 t fo)).
+  Lemma R_resume s0 t fo :
+    ok_henter K (upd_task (fst (incoming s0 t fo)) t (tk_started true)) t -> R s0 (fst (resume s0 t fo)).
   Proof.
-    unfold resume. pose proof (frame_incoming s0 t fo) as F. destruct (incoming s0 t fo) as [s inc]. cbn [fst] in F.
+    intros Hh. unfold resume. pose proof (frame_incoming s0 t fo) as F. destruct (incoming s0 t fo) as [s inc].
+    cbn [fst] in F, Hh.
     assert (B : R s0 s) by (apply Rframe, F).
     destruct (k_ctl (tasks s t)) as [| |k|f tm|g ws exc|g c exc|g child f|child c e wf|h wf|] eqn:Ectl.
     - (* CNew *)
@@ -516,14 +535,14 @@ Section Walk.
       destruct inc as [e|]; cbn [fst]; [now apply Rf_finish_task|].
       eapply Rf; [|apply frame_set_running]. eapply Rf; [|apply frame_park].
       destruct (k_group (tasks (upd_task s t (tk_started true)) t)); [|exact H1].
-      eapply Rtrans; [exact H1|apply (wh_enter_h _ _ _ _ W)].
+      eapply Rtrans; [exact H1|apply (wh_enter_h _ _ W); exact Hh].
     - (* CIdle *) cbn [fst]. eapply Rf; [|apply frame_set_running]. eapply Rf; [|apply frame_park].
       destruct inc; [apply Rf_upd_task; [tkok|exact B]|exact B].
     - (* CYield *) destruct k as [| |c].
       + now apply Rf_ret.
       + destruct inc; [now apply Rf_ret|]. apply Rf_blocked. now apply Rf_bare_yield.
       + dpair s1 x E. pose proof (Rp_exit _ _ _ _ _ _ _ E B) as H1. destruct x; now apply Rf_ret.
-    - (* CSleep *) apply Rf_ret. eapply Rtrans; [exact B|]. eapply (wh_sleep_wake _ _ _ _ W); eauto.
+    - (* CSleep *) apply Rf_ret. eapply Rtrans; [exact B|]. eapply (wh_sleep_wake _ _ W); eauto.
     - (* CAexitWait *)
       assert (H1 : R s0 (upd_group s g (gr_fut None))) by (apply Rf_upd_group; auto).
       destruct inc as [e|]; [|now apply R_aexit_wait].
@@ -541,7 +560,7 @@ Section Walk.
       destruct inc as [e|]; [|now apply Rf_ret].
       destruct (handle_pending s child); [|now apply Rf_ret].
       dpair s2 c E. dpair s4 wf E4. apply Rf_blocked, Rf_set_ctl; [exact I|].
-      eapply Rp_event_wait; [exact E4|]. eapply Rp_new_enter; [exact E|]. now apply Rf_cancel.
+      eapply Rp_event_wait; [exact E4|]. eapply Rp_new_enter; [exact OkN|exact E|]. now apply Rf_cancel.
     - (* CStartJoin *)
       dpair s2 x E.
       assert (H2 : R s0 s2).
@@ -597,19 +616,27 @@ Section Walk.
       destruct (f_st (futs s4 f)); [apply HF|exact H4|exact H4|exact H4].
   Qed.
 
-  Lemma R_run_handle s0 h : R s0 (fst (run_handle s0 h)).
+  Definition run_ok (s0 : st) (h : handle) : Prop :=
+    match h with
+    | HStep t => ok_henter K (upd_task (fst (incoming (pop s0 h) t None)) t (tk_started true)) t
+    | HWake t f => ok_henter K (upd_task (fst (incoming (pop s0 h) t (Some f))) t (tk_started true)) t
+    | HTimeout c tm => ok_trun K s0 c tm
+    | _ => True
+    end.
+
+  Lemma R_run_handle s0 h : run_ok s0 h -> R s0 (fst (run_handle s0 h)).
   Proof.
-    unfold run_handle. destruct (negb (existsb (handle_eqb h) (ready s0))) eqn:Ein; [cbn [fst]; apply Rrefl|].
+    intros OK. unfold run_handle. destruct (negb (existsb (handle_eqb h) (ready s0))) eqn:Ein; [cbn [fst]; apply Rrefl|].
     cbv zeta. fold (pop s0 h).
     assert (P : forall h, is_th h = false -> R s0 (pop s0 h)) by (intros h' Hh; apply Rframe, frame_pop, Hh).
     destruct h as [t|t f|c|t|f tm|c tm].
-    - apply Rtrans with (pop s0 (HStep t)); [now apply P|apply R_resume].
-    - apply Rtrans with (pop s0 (HWake t f)); [now apply P|apply R_resume].
+    - apply Rtrans with (pop s0 (HStep t)); [now apply P|apply R_resume; exact OK].
+    - apply Rtrans with (pop s0 (HWake t f)); [now apply P|apply R_resume; exact OK].
     - cbn [fst]. eapply Rf; [|apply frame_set_running]. eapply Rf; [|apply frame_deliver_top].
       eapply Rf; [|apply frame_set_running]. now apply P.
     - cbn [fst]. apply Rtrans with (pop s0 (HTaskDone t)); [now apply P|apply R_run_task_done].
-    - cbn [fst]. eapply Rf; [|apply frame_fut_complete]. apply (wh_pop_sleepdone _ _ _ _ W).
-    - cbn [fst]. eapply Rf; [|apply frame_set_running]. apply (wh_timeout_run _ _ _ _ W).
+    - cbn [fst]. eapply Rf; [|apply frame_fut_complete]. apply (wh_pop_sleepdone _ _ W).
+    - cbn [fst]. eapply Rf; [|apply frame_set_running]. apply (wh_timeout_run _ _ W); [exact OK|].
       apply negb_false_iff, existsb_exists in Ein. destruct Ein as (x & Hx & E).
       destruct x; cbn in E; try discriminate. apply andb_true_iff in E. destruct E as [E1 E2].
       apply Nat.eqb_eq in E1, E2. now subst.
@@ -618,14 +645,17 @@ Section Walk.
   Lemma R_new_root s : R s (fst (new_root s)).
   Proof.
     unfold new_root. cbv zeta. cbn [fst]. eapply Rf; [|apply frame_set_running]. eapply Rf; [|apply frame_park].
-    apply (wh_add_root _ _ _ _ W).
+    apply (wh_add_root _ _ W).
   Qed.
 
   Definition op_ok (s : st) (o : op) : Prop :=
     match o with
-    | AEnter t c => enter_ok (begin_act s t) c
-    | ASetDeadline t c d => setdl_ok (begin_act s t) c d
-    | ATick dt => tick_ok s dt
+    | AEnter t c => ok_enter K (begin_act s t) c
+    | ASetDeadline t c d => ok_setdl K (begin_act s t) c d
+    | AFailAt t d _ => ok_new K d
+    | AGroupEnter t g => ok_genter K (upd_group (begin_act s t) g (gr_entered true)) g
+    | ARun h => run_ok s h
+    | ATick dt => ok_tick K s dt
     | _ => True
     end.
 
@@ -641,7 +671,17 @@ Section Walk.
       + apply R_new_root.
       + cbn [fst]. apply Rframe, frame_task_cancel.
       + cbn [fst]. eapply Rf; [|apply frame_set_running]. apply Rf_cancel. apply Rframe, frame_set_running.
-      + apply R_run_handle.
-      + destruct (Z.ltb dt 0); cbn [fst]; [apply Rrefl|]. now apply (wh_tick _ _ _ _ W).
+      + apply R_run_handle. exact OK.
+      + destruct (Z.ltb dt 0); cbn [fst]; [apply Rrefl|]. now apply (wh_tick _ _ W).
   Qed.
 End Walk.
+
+(* with only the three classic side conditions, the other ops are unconditional *)
+Lemma op_ok_always e d k s o :
+  match o with
+  | AEnter t c => e (begin_act s t) c
+  | ASetDeadline t c dl => d (begin_act s t) c dl
+  | ATick dt => k s dt
+  | _ => True
+  end -> @op_ok (ok_always e d k) s o.
+Proof. destruct o; cbn; auto. destruct h; cbn; auto. Qed.
